@@ -112,7 +112,7 @@ class RunAnalysis:
                     s = self.spec[fi]
                     k = "call_async" if s["is_async"] else "call_sync"
                     tlines.append(f"T|{k}|{pol_class(s['policy'])}|{cache_for_fn(fi)}|{syncs}|{asyncs}|{' '.join(trace[t])}")
-                    mm = re.match(r"ret=(\S*)_(\S+)_exec=(\d+)_would=(\S+)", body)
+                    mm = re.match(r"ret=(\S*?)_(\S+?)_exec=(\d+)_would=(\S+?)_wsize=(\d+)", body)
                     if mm:
                         calls_done.setdefault(fi, []).append(int(mm.group(3)))
                         ev("concurrent-call")
@@ -164,6 +164,114 @@ class RunAnalysis:
                 ev("quiescent-stats-checked")
 
 
+def mask_pred(keyhex, mask):
+    kb = b"" if keyhex == "e" else bytes.fromhex(keyhex)
+    return (len(kb) + sum(kb)) % 4 < mask
+
+
+def cfg_of(s):
+    import struct
+    return " ".join([s["flavour"], s["policy"], str(s["limit"]) if s["limit"] is not None else "-",
+                     str(s["maxmem"]) if s["maxmem"] is not None else "-", str(s["ttl"]) if s["ttl"] is not None else "-",
+                     s["line"].split("|")[5].split(" ")[5]])
+
+
+def build_cdata(spec, sites, fns, ktable, iline, vline, qline):
+    """translate one scheduled run into a replay line for the data-carrying interleaving model (driver cdata):
+    engine-level programs of the HOT cache (fns[0]), the schedule as thread ids per micro-step (one per critical
+    section, emitted where the section takes effect), initial and final dump, lookup results"""
+    hot = fns[0]
+    hs = spec[hot]
+    if hs["policy"] == "random":
+        return None
+    events = vline[2:].split(" ") if len(vline) > 2 else []
+    nthreads = 1 + max([int(e[1:e.index(":")]) for e in events if e and e[0] in "SAER"] or [0])
+    progs = [[] for _ in range(nthreads)]
+    results = [[] for _ in range(nthreads)]
+    steps = []                      # (position, thread)
+    cur = {}
+    sec = {}                        # thread -> [lock#, position] of the open queue-mutex section on the hot cache
+    has_meta = bool(hs["tags"] or hs["events"] or hs["deps"])
+    allkeys = set(ktable.values())
+    init = iline[2:].split("|")[0]
+    for part in init.split("@"):
+        if part.startswith(f"{hot}:g=") and part != f"{hot}:g=-":
+            for e in part.split("=", 1)[1].split("#")[0].split(";"):
+                if e:
+                    allkeys.add(e.split("=")[0])
+    for pos, e in enumerate(events):
+        if not e:
+            continue
+        kind, t = e[0], int(e[1:e.index(":")])
+        body = e[e.index(":") + 1:]
+        if kind == "S":
+            op = body.split("_")
+            cur[t] = {"op": op, "targets_hot": False, "rk_pos": None}
+            if op[0] == "call" and int(op[1]) == hot and hs["is_async"]:
+                steps.append((pos, t))            # async lookup: the shard read happens right after the call starts
+        elif kind == "A":
+            site, ln, mode, own = body.split(":")
+            site, ln = int(site), int(ln)
+            lname, is_held, _ = sites.get(site, ("?", False, ""))
+            if lname == "Rk" and t in cur:
+                cur[t]["rk_pos"] = pos
+            if lname not in ("O", "M") or own != str(hot):
+                continue
+            cur[t]["targets_hot"] = True
+            if lname == "O":
+                if site == 6002 and cur[t]["rk_pos"] is not None:
+                    steps.append((cur[t]["rk_pos"] + 0.5, t))     # async conditional callback: collect, then purge
+                if is_held:
+                    sec[t] = [ln, pos]
+                else:
+                    steps.append((pos, t))
+            else:
+                if t in sec:
+                    sec[t][1] = pos
+                else:
+                    steps.append((pos, t))
+        elif kind == "R":
+            ln = int(body)
+            if t in sec and sec[t][0] == ln:
+                steps.append((sec[t][1], t))
+                del sec[t]
+        elif kind == "E":
+            c = cur.get(t)
+            if not c:
+                continue
+            op = c["op"]
+            if op[0] == "call" and int(op[1]) == hot:
+                mm = re.match(r"ret=(\S*?)_(\S+?)_exec=(\d+)_would=(\S+?)_wsize=(\d+)", body)
+                if not mm:
+                    return None
+                key, ret, ex, wsz = mm.group(1), mm.group(2), int(mm.group(3)), int(mm.group(5))
+                allkeys.add(key)
+                progs[t].append(f"get {key}")
+                results[t].append(ret if ex == 0 else "-")
+                if ex == 1:
+                    progs[t].append(f"{'insm' if hs['use_mem'] else 'ins'} {key} {ret} {wsz if hs['use_mem'] else 0}")
+            elif op[0] in ("tag", "event", "dep", "cache") and c["targets_hot"]:
+                progs[t].append("clear")
+            elif op[0] in ("with", "allwith") and c["targets_hot"]:
+                mask = int(op[2] if op[0] == "with" else op[1])
+                ks = sorted(k for k in allkeys if mask_pred(k, mask))
+                progs[t].append("inv " + ",".join(ks) if ks else "inv")
+    steps.sort()
+    sched = ",".join(str(t) for _, t in steps)
+    final = None
+    for part in qline[2:].split("|")[0].split("@"):
+        if part.startswith(f"{hot}:g="):
+            final = part.split("=", 1)[1]
+    initd = None
+    for part in init.split("@"):
+        if part.startswith(f"{hot}:g="):
+            initd = part.split("=", 1)[1]
+    if final is None or initd is None or final == "-" or initd == "-":
+        return None
+    return "D|" + "|".join([cfg_of(hs), initd, "~".join(";".join(p) for p in progs), sched, final,
+                            "~".join(",".join(r) for r in results)])
+
+
 def run_proc(args):
     seed, nprog, maxruns = args
     p = subprocess.run([os.path.join(common.BIN, "sched"), "explore", str(seed), str(nprog), str(maxruns)], stdout=subprocess.PIPE,
@@ -186,6 +294,7 @@ def run_sched_stream(prop, stream, tier, seed, workdir, scale=1):
     acc = {"steps": 0, "events": {}, "configs": set(), "by_flavour_policy": {}, "nontrivial": set(), "samples": []}
     want = set(stream.get("nontrivial", []))
     tlines = []
+    dlines = []
     probe_text = []
     runs = 0
     exhaustive_programs = 0
@@ -199,7 +308,13 @@ def run_sched_stream(prop, stream, tier, seed, workdir, scale=1):
             verdicts.append({"kind": "BAD", "id": None, "episode": 0, "step": 0, "text": f"sched {s} exited {rc}: {err}"})
         cur = None
         x = v = None
+        ktable = {}
+        iline = None
         for line in out.splitlines():
+            if line.startswith("K|"):
+                ktable = {int(kv.split("=")[0]): kv.split("=")[1] for kv in line.split("|")[2].split(",")}
+            elif line.startswith("I|"):
+                iline = line
             if line.startswith("P|"):
                 _, fl, pt = line.split("|", 2)
                 fns = [int(i) for i in fl.split(",")]
@@ -224,6 +339,14 @@ def run_sched_stream(prop, stream, tier, seed, workdir, scale=1):
                     {"kind": "MON", "id": pid, "episode": 0, "step": 0, "text": f"MON {pid} :: {msg}", "raw": rp}), tlines, ev)
                 runs += 1
                 acc["steps"] += 1
+                if iline is not None:
+                    try:
+                        dl = build_cdata(spec, sites, cur.fns, ktable, iline, v, line)
+                    except Exception as exn:
+                        dl = None
+                        verdicts.append({"kind": "BAD", "id": None, "episode": 0, "step": 0, "text": f"cdata translation failed: {exn!r}"})
+                    if dl:
+                        dlines.append(dl)
                 new = {k for k in acc["events"] if acc["events"][k] != before.get(k, 0)}
                 if new & want:
                     acc["nontrivial"].add(hash((x.split("|sched=")[1], v[:400])))
@@ -247,6 +370,13 @@ def run_sched_stream(prop, stream, tier, seed, workdir, scale=1):
                 verdicts.append({"kind": "MON", "id": part.split()[1], "episode": 0, "step": 0, "text": part[:700]})
             elif part.startswith("BAD"):
                 verdicts.append({"kind": "BAD", "id": None, "episode": 0, "step": 0, "text": part[:700]})
+    # tie 3: the recorded real schedules replayed on the data-carrying interleaving model (ConcData.creplay)
+    dl = sorted(set(dlines))
+    q3 = subprocess.run([common.DRIVER, "cdata"], input="\n".join(dl) + "\n", stdout=subprocess.PIPE, stderr=subprocess.STDOUT, env=common.ENV, text=True)
+    for l in q3.stdout.splitlines():
+        if l.startswith("DIFF") or l.startswith("BAD"):
+            verdicts.append({"kind": l.split(" ")[0], "id": None, "episode": 0, "step": 0, "text": "schedule replay: " + l[:1200]})
+    acc["events"]["distinct-real-schedules-replayed-on-the-interleaving-model"] = len(dl)
     # tie 2: sequential probe histories vs the model, from the dumped quiescent state
     q2 = subprocess.run([common.DRIVER, "macro"], input=spec_text + "\n".join(probe_text) + "\n", stdout=subprocess.PIPE,
                         stderr=subprocess.STDOUT, env=common.ENV, text=True)
